@@ -133,7 +133,7 @@ class Tally:
         self.note = note
 
     def __call__(self):
-        return (type(self.count).__name__, type(self.note).__name__)
+        return (self.count is None, self.note is None)
 
 
 class Sealed:
